@@ -355,6 +355,7 @@ def run(tier: str) -> int:
              "shapes": {"use_before_create": 0, "delete_then_require": 0, "type_change_across_ctx_node": 0, "create_and_require": 0,
                         "falsy_value_created": 0}}
     reqs, cases, oreqs = [], [], []
+    oracle_only = set()
     for i in range(n_cases):
         nodes, ctx0, meta = pipegen.gen_pipeline(rnd, max_len=max_len, p_misfit=0.06)
         # bias toward the shapes the property names
@@ -378,6 +379,13 @@ def run(tier: str) -> int:
         elif r < 0.30:
             nodes = [{"processor": "TSourceDef"}, {"processor": 'template:"{c}x":c'}, {"processor": "TProbeP", "context_key": "a"}] + nodes[:2]
             stats["shapes"]["create_and_require"] += 1
+        elif r < 0.39 and r >= 0.36:
+            # a template whose placeholder is a dotted context key (dotted keys are legal for rename / delete / probes)
+            k = rnd.choice(["run.id", "fit.parameters", "a.b"])
+            nodes = [{"processor": "TSourceDef"}, {"processor": "TProbe", "context_key": k} if rnd.random() < 0.5 else {"processor": "TOp0"},
+                     {"processor": 'template:"exp_{%s}.png":c' % k}] + nodes[:1]
+            stats["shapes"]["dotted_template_placeholder"] = stats["shapes"].get("dotted_template_placeholder", 0) + 1
+            oracle_only.add(i)         # placeholder grammar is outside the reference analysis: judged on the real code only
         elif r < 0.36:
             # a key created with a falsy value (0, 0.0, False, "", [], null) is created all the same
             k = rnd.choice(["a", "c"])
@@ -423,7 +431,7 @@ def run(tier: str) -> int:
             if accepted and insp_unknown:
                 rep.add_violation("unknown-param-accepted", "validation accepts a configuration with unknown parameters", dict(pub, inspection=insp_unknown))
         # ---- correspondence with the reference analysis -------------------------------------------------
-        if model is not None:
+        if model is not None and i not in oracle_only:
             a = model[i]
             if "err" in a:
                 rep.add_broken(f"correspondence C02: driver error {a['err']}")
@@ -439,7 +447,7 @@ def run(tier: str) -> int:
             continue
         stats["accepted"] += 1
         # ---- correspondence of the reported origins with the model's one-pass origin analysis (theorems origin_*_true) ----
-        if omodel is not None and "ok" in omodel[i]:
+        if omodel is not None and "ok" in omodel[i] and i not in oracle_only:
             for idx, (ni, row) in enumerate(zip(insp.nodes, omodel[i]["ok"])):
                 cfg = nodes[idx].get("parameters") or {}
                 reported = {}
